@@ -1,0 +1,5 @@
+// Package verifapi is empty unless cog is built with the `verif` build tag.
+//
+// With the tag on, it re-exports a few internal types and functions so that an
+// external verification harness can drive them. It is never imported by cog.
+package verifapi
